@@ -70,7 +70,7 @@ cancel it - the rounding error is that of the terms, not of the remainder)
             D(e)/D(e/2) >= 2.83 and D(e) <= 100 e^2 (measured <= 18 e^2).
 
 Genuine defects of the pinned tree found by this check (all in .py files; NOT repaired here - proposed patches in
-/verif/out/proposed-fix-C14-{1..4}.diff - and listed in known_findings.d/C14.json with signatures that name clause
+/verif/out/proposed-fix-C14-{1..4}.diff - and listed in known_findings.json with signatures that name clause
 and mode, so that any other mode/clause still raises a VIOLATION; the search continues behind each):
   KF-C14-static-in-every-mode  the four *_modes variants add the static P20 term to EVERY mode when use_static=True,
         so the modes sum to non-modal + (N-1)*static (the caller multilayer_modes sums the modes).  The check
